@@ -2,6 +2,7 @@ package selection
 
 import (
 	"grog/internal/config"
+	"grog/internal/dag"
 	"grog/internal/model"
 	"slices"
 )
@@ -25,6 +26,15 @@ func nodeMatchesPlatform(node model.BuildNode) bool {
 	}
 
 	return true
+}
+
+// nodeIsSelectablePlatform is nodeMatchesPlatform for the starting points of a selection:
+// an alias matches the platform if the target it points to does.
+func nodeIsSelectablePlatform(graph *dag.DirectedTargetGraph, node model.BuildNode) bool {
+	if aliased := resolveAliasedTarget(graph, node); aliased != nil {
+		return nodeMatchesPlatform(aliased)
+	}
+	return nodeMatchesPlatform(node)
 }
 
 func TargetMatchesTypeSelection(target *model.Target, targetType TargetTypeSelection) bool {
